@@ -256,6 +256,8 @@ func (s *scriptT) renderCaller(c *Case, calleeExpr string, setup []string) {
 		pt := paramTypeOf(c, k)
 		name := fmt.Sprintf("v%d", k)
 		switch c.Forms[k] {
+		case "loopvar":
+			args = append(args, "b") // the variable of the loop around the call (ctx condloop)
 		case "decl":
 			// the function is declared at top level and passed by name (a *node in the frame)
 			fname := fmt.Sprintf("cb%d", k)
@@ -412,6 +414,33 @@ func (s *scriptT) renderCaller(c *Case, calleeExpr string, setup []string) {
 		for i := range recorded {
 			recorded[i] = false
 		}
+	case "condloop":
+		seq := make([]string, len(c.Seq))
+		for i, b := range c.Seq {
+			seq[i] = fmt.Sprint(b)
+		}
+		yes, no := `hp.Rec("c", "bool", true)`, `hp.Rec("c", "bool", false)`
+		var stmt string
+		switch c.CondOp {
+		case "and":
+			stmt = "if " + call + " && t { " + yes + " } else { " + no + " }"
+		case "or":
+			stmt = "if " + call + " || fl { " + yes + " } else { " + no + " }"
+		case "rhsand":
+			stmt = "if t && " + call + " { " + yes + " } else { " + no + " }"
+		case "not":
+			stmt = "if !" + call + " { " + yes + " } else { " + no + " }"
+		case "for":
+			stmt = "for " + call + " { " + yes + "; break }"
+		case "andassign":
+			stmt = "ok := " + call + ` && t; hp.Rec("c", "bool", ok)`
+		case "orassign":
+			stmt = "ok := " + call + ` || fl; hp.Rec("c", "bool", ok)`
+		default:
+			stmt = "if " + call + " { " + yes + " } else { " + no + " }"
+		}
+		s.run = append(s.run, "t, fl := true, false", "_, _ = t, fl", "for _, b := range []bool{"+strings.Join(seq, ", ")+"} { "+stmt+" }")
+		recorded[0] = false
 	case "cond":
 		s.run = append(s.run, "if "+call+` { hp.Rec("res.0", "bool", true) } else { hp.Rec("res.0", "bool", false) }`)
 		recorded[0] = false
@@ -506,6 +535,35 @@ func nativeCall(c *Case, env *nativeEnv, fv reflect.Value) {
 			target = ft.In(k)
 		}
 		in = append(in, bc.build(v, target))
+	}
+	if c.Ctx == "condloop" {
+		// the call once per element of Seq; what the consuming operation yields is recorded
+		for _, b := range c.Seq {
+			in[0] = reflect.ValueOf(b)
+			var r bool
+			if c.Spread {
+				r = fv.CallSlice(in)[0].Bool()
+			} else {
+				r = goCall(fv, in)[0].Bool()
+			}
+			switch c.CondOp {
+			case "not":
+				env.recordStatic("c", nil, !r)
+			case "for":
+				if r {
+					env.recordStatic("c", nil, true)
+				}
+			default: // r && true, r || false, true && r, if r
+				env.recordStatic("c", nil, r)
+			}
+		}
+		for k := range c.Args {
+			pt := paramTypeOf(c, k)
+			if c.Forms[k] == "var" && refLike(pt) {
+				env.recordStatic(fmt.Sprintf("after.%d", k), in[k].Type(), in[k].Interface())
+			}
+		}
+		return
 	}
 	var res []reflect.Value
 	switch {
